@@ -1,4 +1,5 @@
 pub mod byz;
+pub mod chaos;
 pub mod crash;
 pub mod lock;
 pub mod model;
@@ -23,6 +24,7 @@ pub fn generate(engine: &str, prop: &str, seed: u64, thorough: bool) -> Trace {
         "trust" => trust::generate(seed, prop, thorough),
         "model" => model::generate(seed, prop, thorough),
         "byz" => byz::generate(seed, prop, thorough),
+        "chaos" => chaos::generate(seed, prop, thorough),
         _ => panic!("unknown engine {engine}"),
     }
 }
@@ -38,6 +40,7 @@ pub fn directed(engine: &str, prop: &str) -> Vec<Trace> {
         "trust" => trust::directed(prop),
         "model" => model::directed(prop),
         "byz" => byz::directed(prop),
+        "chaos" => chaos::directed(prop),
         _ => vec![],
     }
 }
@@ -53,6 +56,7 @@ pub fn execute(trace: &Trace, keep_log: bool) -> (RunReport, Vec<String>) {
         "trust" => trust::execute(trace, keep_log),
         "model" => model::execute(trace, keep_log),
         "byz" => byz::execute(trace, keep_log),
+        "chaos" => chaos::execute(trace, keep_log),
         e => panic!("unknown engine {e}"),
     }
 }
@@ -287,6 +291,20 @@ pub fn specs() -> Vec<PropSpec> {
             level: "exploration",
             rule: "as C02 with the room-definition operators: M claims a newer definition date and substitutes the definition V imports (real add_room_node / prepare_room_with_history): older definition with entries omitted, admin-signed user entry re-attached as admin or moved to the all-rights group by a reference M signs, self-signed admin / right / user-admin entries, right entry of another room; V's stored entries before must all be stored unchanged after, nothing new stored, and V's decision grid {3 identities} x {entities} x {dates} x {admin, member, own, all} unchanged",
             assumptions: &["none of the crafted definitions contains an entry added by somebody entitled to, so any change is a violation"],
+            real: repl_real,
+            stub: STUB_NET,
+            batch: 1,
+        },
+        PropSpec {
+            id: "C14",
+            engine: "chaos",
+            budget_s: (50, 600),
+            level: "exploration",
+            rule: "a live node (2 reader threads, verifier pool, writer) and an honest peer; per run a data model generated over awkward identifiers (storage-engine and language keywords, digits first, '_', Unicode letters) with every field type, then 10-50 inputs: requests generated from the grammar over that model (creations with nested references, updates, deletions, queries with filters on every type, null and JSON filters, search, ordering and paging, limits, aliases, aggregates, JSON selectors), every parameter kind against every field type, character-level mutations of requests and of the model text, hostile answers of every kind while the node pulls (garbage, truncated, empty, huge length prefix, other kind, rows with empty / short / long keys and signatures, empty entity, broken JSON, extreme dates, no room), hostile requests on its serving side, restarts; after EVERY input: no panic in the process (panic hook), every service thread alive (per-node thread registry), no hang, and a probe mutation, probe query and four signature verifications answered normally; a damaged instance is reported and restarted so the run goes on; distinct = distinct schedule signature (input shapes and verdicts)",
+            assumptions: &[
+                "'rejected by the database engine' = the error returned is the storage-engine variant (rusqlite) of the database error; any other error is a legitimate refusal",
+                "wire frames below typed messages (QUIC frame lengths) are outside the simulated transport; hostile bytes enter as message payloads",
+            ],
             real: repl_real,
             stub: STUB_NET,
             batch: 1,
